@@ -85,8 +85,11 @@ var specs = map[string]*propSpec{
 		assumptions: assume("crash points are process kills and file copies at quiescent points, not power failures (fsync honesty is not observable)", "hostname round-trip through sqlite NUMERIC affinity is recorded but is not part of the property"),
 		runs: []runSpec{
 			{engine: "range", qBatches: 32, qCases: 4, tBatches: 128, tCases: 12},
+			{engine: "rangekill", qBatches: 16, qCases: 4, tBatches: 32, tCases: 15},
+			// the range plugin is the one cgo path (go-sqlite3): hostile hostnames/MACs under AddressSanitizer
+			{engine: "range", buildFlags: []string{"-asan"}, parallel: 8, tBatches: 16, tCases: 6},
 		},
-		guards: []guard{{"range.crash_points", 1500, "crash points"}, {"range.restarts", 10, "restarts"}},
+		guards: []guard{{"range.crash_points", 1500, "crash points"}, {"range.restarts", 10, "restarts"}, {"rangekill.acked_bindings_verified", 100, "bindings verified after SIGKILL"}},
 	},
 	"C20": {
 		level: "exploration",
